@@ -105,3 +105,20 @@ def violations(fn, imports=()):
             if r is not None and r not in loc and r not in imports:
                 out.append((n.lineno, "calls %s.%s(...) on the non-local name %r" % (ast.unparse(n.func.value)[:40], n.func.attr, r)))
     return sorted(set(out))
+
+
+def injects_into_own_frame(fn):
+    """the function execs definitions into its own frame and evaluates strings against locals() (checkEquation does: the model's
+    symbols become its local variables)"""
+    calls = {n.func.id for n in ast.walk(fn) if isinstance(n, ast.Call) and isinstance(n.func, ast.Name)}
+    return 'exec' in calls and 'locals' in calls
+
+
+def shadowing_locals(fn, allowed=('list_out',)):
+    """locals of such a function that could shadow an injected symbol: every local that is not a parameter, not underscore-prefixed
+    (the function's own documented rule: symbols starting with an underscore are not allowed in a model) and not one of the few
+    the pinned source already has (`list_out`)"""
+    loc, _ = _locals(fn)
+    a = fn.args
+    params = {x.arg for x in list(a.posonlyargs) + list(a.args) + list(a.kwonlyargs)}
+    return sorted(n for n in loc if n not in params and not n.startswith('_') and n not in allowed)
